@@ -2,9 +2,10 @@ package main
 
 // Part is one harness binary (with fixed extra arguments) contributing to a property.
 type Part struct {
-	Harness    string
-	Args       []string
-	MemLimitMB int // address-space limit of each worker process (0 = none)
+	Harness     string
+	Args        []string
+	MemLimitMB  int // address-space limit of each worker process (0 = none)
+	HangSeconds int // > 0: a worker that overruns its deadline by this many seconds is killed and reported (a single case that never returns)
 }
 
 // Prop describes how a property is checked.
@@ -118,7 +119,7 @@ var properties = map[string]Prop{
 		Assumptions: []string{"equality is judged on a canonical projection (nil == empty containers, time by UnixNano, errors by code+message, references by address+path)", "field domains are the small sets listed; other values are not covered"},
 	},
 	"C13": {
-		Parts:       []Part{{Harness: "c13", MemLimitMB: 6000}},
+		Parts:       []Part{{Harness: "c13", MemLimitMB: 6000, HangSeconds: 120}},
 		Level:       "exploration",
 		QuickBudget: 200, ThoroughBudget: 1800,
 		Rule:        "decode side: every byte string of length <= 2, and every string of length 3-5 (6 thorough) over the boundary alphabet {00,01,04,7f,80,fc,ff}, through every entry point (envelope decoder with and without a user codec, ReadMessage, ReadVersionVector, each of the 30 registered readers); for every distinct valid encoding of the C12 corpus (three routes: registered writer, WriteMessage, envelope) every truncation and at every offset the substitutions {00,01,7f,80,ff,b^01,b^80,b+1,b-1} (thorough: all 255) and every 4-byte window overwritten with {ffffffff, fffffffc, 80000000, 7fffffff, 00010000, 0000ffff}; Reader.Read of every truncation of 12 encoded shapes into pre-filled targets; each case guarded for panic and for allocation > 1 MiB + 4 KiB x input length (runtime/metrics), the worker runs under an address-space limit and a fatal crash is attributed to the case in flight; encode side: 19 unsupported / exotic Go values through Write and WriteFrom, 9 nil / non-pointer / unknown messages through the envelope encoder and WriteMessage with and without a codec; every case is distinct",
